@@ -163,6 +163,18 @@ class Term:
             out[p] = out[p] + Poly({rest: v})
         return {p: Term(poly, self.d) for p, poly in out.items()}
 
+    def subst(self, mapping):
+        """Replace atoms by Terms (atoms not in the mapping stay)."""
+        def poly(pl):
+            tot = Term.const(0)
+            for m, c in pl.t.items():
+                t = Term.const(c)
+                for a, p in m:
+                    t = t * (mapping.get(a, Term.sym(a)) ** p)
+                tot = tot + t
+            return tot
+        return poly(self.n) / poly(self.d)
+
     def __repr__(self):
         return self.key()
 
@@ -179,7 +191,7 @@ _FUNC_ALIASES = {
     "np.sqrt": "sqrt", "math.sqrt": "sqrt",
     "np.max": "max", "max": "max", "np.maximum": "max", "np.amax": "max",
     "np.min": "min", "min": "min", "np.minimum": "min",
-    "float": None, "Decimal": None,   # numeric casts are transparent
+    "float": None, "Decimal": None, "int": None,   # numeric casts are transparent
 }
 _CONSTS = {"np.e": "E", "math.e": "E", "np.pi": "PI", "math.pi": "PI"}
 
@@ -249,7 +261,8 @@ class SymEval:
             if base is not None and isinstance(n.slice, ast.Constant):
                 k = f"{base}[{n.slice.value!r}]"
                 return self.env.get(k, Term.sym(k))
-            raise NotSymbolic("subscript")
+            k = norm(n)                       # table lookup with a symbolic key: an opaque atom
+            return self.env.get(k, Term.sym(k))
         if isinstance(n, (ast.List, ast.Tuple)):
             raise NotSymbolic("sequence")
         if isinstance(n, ast.IfExp):
